@@ -1082,6 +1082,15 @@ class Emitter:
             for ins in b.instrs:
                 if ins.op == 'cast' and ins.cop == 'bitcast' and ins.res is not None:
                     s.castmap[ins.res] = (ins.ty, ins.a)
+        # integer loads whose value is turned back into a pointer (clang reads pointer slots as i64 when it copies small
+        # structs): the pointer is also read with pointer type at the same place, and inttoptr uses that copy, so that the
+        # model checker keeps the points-to information (the integer value stays in use for everything else)
+        s.ptrshadow = set()
+        loads = {ins.res for b in f.blocks for ins in b.instrs if ins.op == 'load' and ins.res is not None and isinstance(s.resolve(ins.ty), IntTy) and s.resolve(ins.ty).bits == 64}
+        for b in f.blocks:
+            for ins in b.instrs:
+                if ins.op == 'cast' and ins.cop == 'inttoptr' and isinstance(ins.a, Local) and ins.a.name in loads:
+                    s.ptrshadow.add(ins.a.name)
         w(('static ' if f.static else '') + s.proto(f.name, f.ret, f.params, f.vararg) + " {")
         params = {pn for (_, pn) in f.params}
         for n, t in vt.items():
@@ -1090,6 +1099,8 @@ class Emitter:
             if isinstance(s.resolve(t), VoidTy):
                 continue
             w(f"  {s.cty(t)} v_{cname(n)};")
+        for n in sorted(s.ptrshadow):
+            w(f"  void *vp_{cname(n)};")
         # phi temporaries
         phis = {}
         for b in f.blocks:
@@ -1286,12 +1297,16 @@ class Emitter:
         if op == 'icmp':
             return [f"{r} = {s.icmp_expr(ins.pred, ins.ty, s.val(ins.a, ins.ty), s.val(ins.b, ins.ty))};"]
         if op == 'cast':
+            if ins.cop == 'inttoptr' and isinstance(ins.a, Local) and ins.a.name in getattr(s, 'ptrshadow', ()):
+                return [f"{r} = (({s.cty(ins.to)})vp_{cname(ins.a.name)});"]
             return [f"{r} = {s.cast_expr(ins.cop, ins.ty, s.val(ins.a, ins.ty), ins.to)};"]
         if op == 'select':
             return [f"{r} = {s.val(ins.c, IntTy(1))} ? {s.val(ins.a, ins.ty)} : {s.val(ins.b, ins.ty)};"]
         if op == 'freeze':
             return [f"{r} = {s.val(ins.a, ins.ty)};"]
         if op == 'load':
+            if ins.res in getattr(s, 'ptrshadow', ()):
+                return [f"{r} = *(({s.cty(PtrTy(ins.ty))}){s.val(ins.p, ins.pty)});", f"vp_{cname(ins.res)} = *((void **){s.val(ins.p, ins.pty)});"]
             return [f"{r} = *(({s.cty(PtrTy(ins.ty))}){s.val(ins.p, ins.pty)});"]
         if op == 'store':
             return [f"*(({s.cty(PtrTy(ins.ty))}){s.val(ins.p, ins.pty)}) = {s.val(ins.v, ins.ty)};"]
